@@ -64,6 +64,30 @@ def get_broadcast_bad_options_report(bad_options, is_set=False):
     return msg
 
 
+def _iter_setting_leaves(setting, keys_str=""):
+    """Yield (key_string, value) for every leaf of a nested setting dict.
+
+    Sections are wrapped in square brackets in the key string.
+
+    Examples:
+        >>> list(_iter_setting_leaves({'script': 'true'}))
+        [('script', 'true')]
+        >>> list(_iter_setting_leaves(
+        ...     {'environment': {'A': '1', 'B': '2'}, 'script': 'true'}))
+        [('[environment]A', '1'), ('[environment]B', '2'), ('script', 'true')]
+        >>> list(_iter_setting_leaves({'environment': {}}))
+        []
+
+    """
+    if not isinstance(setting, dict):
+        return
+    for key, value in setting.items():
+        if isinstance(value, dict):
+            yield from _iter_setting_leaves(value, keys_str + "[" + key + "]")
+        else:
+            yield keys_str + key, value
+
+
 def get_broadcast_change_iter(modified_settings, is_cancel=False):
     """Return an iterator of broadcast changes.
 
@@ -81,20 +105,15 @@ def get_broadcast_change_iter(modified_settings, is_cancel=False):
                                    key=lambda x: (x[0], x[1])):
         # sorted by (point, namespace)
         point, namespace, setting = modified_setting
-        value = setting
-        keys_str = ""
-        while isinstance(value, dict):
-            key, value = next(iter(value.items()))
-            if isinstance(value, dict):
-                keys_str += "[" + key + "]"
-            else:
-                keys_str += key
-                yield {
-                    "change": change,
-                    "point": point,
-                    "namespace": namespace,
-                    "key": keys_str,
-                    "value": str(value)}
+        # NOTE: a setting may have several keys at any level (e.g. when
+        # submitted as a dict via the API), report every leaf.
+        for keys_str, value in _iter_setting_leaves(setting):
+            yield {
+                "change": change,
+                "point": point,
+                "namespace": namespace,
+                "key": keys_str,
+                "value": str(value)}
 
 
 def get_broadcast_change_report(modified_settings, is_cancel=False):
